@@ -91,6 +91,7 @@ fn check_contexts<S: Subject>(plan: &Plan, ctx: &Ctx, stats: &mut Stats) -> Resu
 
 fn add<S: Subject>(jobs: &mut Vec<Box<dyn JobT>>, variant: &str, disc: Disc, w: Weights, ex: &[Class], q: u64, t: u64) {
     let pc = PlanCfg::new(w).steps(4, 26);
+    let pc = pc.long_share(S::LONG);
     let ctx = Ctx::new(disc).ex(ex);
     jobs.push(mk_job(format!("{}/{:?}/{variant}", S::name(), disc), q, t, pc, ctx, check_contexts::<S>).floor("nontrivial", 0.05).boxed());
 }
@@ -98,12 +99,18 @@ fn add<S: Subject>(jobs: &mut Vec<Box<dyn JobT>>, variant: &str, disc: Disc, w: 
 pub fn property() -> Property {
     let mut jobs: Vec<Box<dyn JobT>> = Vec::new();
     add::<SOrswot>(&mut jobs, "ops", Disc::Causal, Weights::ops_only(), &[], 15000, 150_000);
+    add::<SOrswotBig>(&mut jobs, "ops", Disc::Causal, Weights::ops_only(), &[], 3750, 37500);
     add::<SOrswot>(&mut jobs, "ops+merges", Disc::Fifo, Weights::mixed(), &[], 15000, 150_000);
+    add::<SOrswotBig>(&mut jobs, "ops+merges", Disc::Fifo, Weights::mixed(), &[], 3750, 37500);
     add::<SMVReg>(&mut jobs, "ops+merges", Disc::Any, Weights::mixed(), &[], 15000, 150_000);
     add::<MapOrswot>(&mut jobs, "ops (strict)", Disc::Causal, Weights::ops_only(), &[], 15000, 150_000);
+    add::<MapOrswotBig>(&mut jobs, "ops (strict)", Disc::Causal, Weights::ops_only(), &[], 3750, 37500);
     add::<MapOrswot>(&mut jobs, "ops+merges", Disc::Causal, Weights::mixed(), &[Class::T1], 15000, 150_000);
+    add::<MapOrswotBig>(&mut jobs, "ops+merges", Disc::Causal, Weights::mixed(), &[Class::T1], 3750, 37500);
     add::<MapMVReg>(&mut jobs, "ops", Disc::Causal, Weights::ops_only(), &[Class::T2], 15000, 150_000);
+    add::<MapMVRegBig>(&mut jobs, "ops", Disc::Causal, Weights::ops_only(), &[Class::T2], 3750, 37500);
     add::<MapMVReg>(&mut jobs, "ops+merges", Disc::Causal, Weights::mixed(), &[Class::T1, Class::T2, Class::T5], 15000, 150_000);
+    add::<MapMVRegBig>(&mut jobs, "ops+merges", Disc::Causal, Weights::mixed(), &[Class::T1, Class::T2, Class::T5], 3750, 37500);
     Property {
         id: "C07",
         rule: "The C04/C05/C06 histories on TOP-LEVEL Orswot, Map<u8,Orswot>, Map<u8,MVReg> and MVReg; after every step every read entry point of the affected replica (read, read_ctx, contains(m) for every member, get(k) for every key, iter, keys, values, len, is_empty) is called and contexts are derived for the replica's own actor, every other replica's actor and an unused actor. Oracle: add_clock = per-actor max dot of the knowledge set (MVReg: join of the visible writes' contexts); whole-state reads have rm_clock == add_clock; element reads have rm_clock == exact surviving witness (model), empty iff absent, <= add_clock; derive_add_ctx(a).dot == (a, add_clock[a]+1), .clock == add_clock joined with the dot, and at the actor's own replica the dot is greater than every dot that actor ever issued (globally fresh); derive_rm_ctx().clock == rm_clock. Non-trivial = probed state whose clock mentions >=2 actors, with >=1 removed element and >=1 element witnessed by two actors; distinct = distinct Plan hash.".into(),
